@@ -134,6 +134,12 @@ def transpile_token(
         elif "+" in parts:
             parts = parts + "* I"
 
+        if "." in token.value and "°" not in token.value:
+            # A plain decimal literal is exactly the rational it spells;
+            # nsimplify would "recognise" 1.4142135623730951 as sqrt(2)
+            return indent_str(
+                f'stack.append(sympy.Rational("{parts}"))', indent
+            )
         return indent_str(f'stack.append(sympy.nsimplify("{parts}"))', indent)
     elif token.name == TokenType.GENERAL:
         return indent_str(elements.get(token.value, ("pass\n", -1))[0], indent)
